@@ -107,6 +107,14 @@ def run(ctx, chk):
             if not b:
                 continue
             paths, _ = an.analyse(cfg, b)
+            # an owner may delegate to the slice form on its own content (the slice form has its own row below)
+            rr = [p for p in paths if p.end == "return"]
+            if what != "SeqSlice<Iupac>::contains" and len(rr) == 1 and not rr[0].guards and \
+                    an.is_call(rr[0].ret, re.compile(r"^seq::slice::SeqSlice::<codec::iupac::Iupac>::contains$"), (me, P(2))):
+                chk.ob("G-contains/len", what, True, "")
+                chk.ob("G-contains", what, True, "", sample="delegates to SeqSlice<Iupac>::contains(content(self), rhs)")
+                n += 1
+                continue
             res, ag = an.strip_assert_guards(paths)
             falses = [p for p in paths if p.end == "return" and p.ret == ("int", 0, "bool")]
             others = [p for p in paths if p.end == "return" and p not in falses]
